@@ -209,10 +209,15 @@ func verifC39Observe(advanceIDs, advanceEpochs bool) string {
 	// quiescence, through the exported surface only: every forwarder goroutine that exists has left
 	// the idle state (it never returns to it before it exits) and every goroutine whose handler is idle
 	// has returned.  In a correct tree this settles within microseconds; otherwise bounded wait.
-	deadline := time.Now().Add(400 * time.Millisecond)
+	deadline := time.Now().Add(1500 * time.Millisecond)
 	for verifC39Goroutines()-verifC39Baseline != verifC39NonIdle(m.APIList().Items) {
 		if time.Now().After(deadline) {
-			verifC39Wasted += 400 * time.Millisecond
+			// Forwarder goroutines and running handlers do not add up: a goroutine was orphaned or never
+			// stopped.  This answer is reported (the spec fails on it); everything after it answers
+			// "harness-gave-up" at once: an orphaned goroutine wakes up after retryPause (5 s) and, once
+			// its handler is stopped, closes the handler's done channel a second time — a panic that would
+			// kill this process and with it every answer collected so far.
+			verifC39Wasted = verifC39WasteBudget + 1
 			break
 		}
 		time.Sleep(200 * time.Microsecond)
